@@ -161,8 +161,15 @@ def index_output(out):
     if os.path.exists(ad):
         import re
         text = open(ad, encoding='utf-8').read()
-        for m in re.finditer(r'<div class="fullName">([^<]*)</div>', text):
-            idx['search_names'].add(m.group(1))
+        # one <li id="<full name>"> per search document (the fullName div itself carries <wbr> break points)
+        for m in re.finditer(r'<li id="([^"]+)"', text):
+            idx['search_names'].add(html.unescape(m.group(1)))
+        for m in re.finditer(r'<div class="fullName">(.*?)</div>', text, re.S):
+            idx['search_names'].add(html.unescape(re.sub(r'<[^>]+>', '', m.group(1))))
+        # the address of each search document is what the search results link to (relative to the output directory)
+        if 'all-documents.html' in idx['pages']:
+            for m in re.finditer(r'<div class="url">([^<]*)</div>', text):
+                idx['pages']['all-documents.html']['links'].append(html.unescape(m.group(1)))
     si = os.path.join(out, 'fullsearchindex.json')
     return idx
 
